@@ -414,6 +414,32 @@ Definition c14_renderwin_mismatches (cases : list (renderwin_input * render_obs)
 Definition c14_renderwin_violations (cases : list (renderwin_input * render_obs)) : list Z :=
   bad_indices (fun c => negb (renderwin_ok c)) cases.
 
+(* ---------------------------------------------------------------- App.Run's render call *)
+
+(* App.Run (after fix 185add5): s.render(vx.Window().New(0, 0, rootW, rootH), focused) on a cleared screen *)
+Definition app_window {A} (cols rows : Z) (s : surface A) : window :=
+  win_new [(0, 0, cols, rows)] 0 0 (s_w s) (s_h s).
+
+Definition apprun_run (inp : render_input) : render_obs :=
+  let '(cols, rows, s) := inp in renderwin_run (cols, rows, [(0, 0, s_w s, s_h s)], s).
+
+(* the call as it was before the fix (window = the whole terminal): regression witness only *)
+Definition apprun_old_run (inp : render_input) : render_obs := render_run inp.
+
+(* clause added by the fix: nothing is painted outside the root surface's rectangle *)
+Definition root_clip_ok (s : surface Z) (scr : list (list Z)) : bool :=
+  all_rows (fun x y c => (c =? 0) || in_rect 0 0 (s_w s) (s_h s) x y) 0 scr.
+
+Definition apprun_ok (c : render_input * render_obs) : bool :=
+  let '((cols, rows, s), (out, scr)) := c in
+  renderwin_ok ((cols, rows, [(0, 0, s_w s, s_h s)], s), (out, scr)) &&
+  (if tree_wf_b s then root_clip_ok s scr else true).
+
+Definition c14_apprun_mismatches (cases : list (render_input * render_obs)) : list Z :=
+  bad_indices (fun c => negb (render_obs_eqb (apprun_run (fst c)) (snd c))) cases.
+Definition c14_apprun_violations (cases : list (render_input * render_obs)) : list Z :=
+  bad_indices (fun c => negb (apprun_ok c)) cases.
+
 Definition c14_render_mismatches (cases : list (render_input * render_obs)) : list Z :=
   bad_indices (fun c => negb (render_obs_eqb (render_run (fst c)) (snd c))) cases.
 Definition c14_render_violations (cases : list (render_input * render_obs)) : list Z :=
